@@ -3,7 +3,10 @@
 package allocator
 
 // C02 verification accessor (injected with -overlay; never part of a normal build).
-// Renders the complete registry state: for every pool its lease map and free list.
+// Renders the registry state the property is about: for every pool who holds which address (the lease map - there is no
+// exported way to enumerate it) and how many addresses the pool can still hand out, asked through the allocator's own
+// Available(). The representation of the free addresses (a slice, built eagerly or lazily, in whatever order) is not
+// observed: which free address an Allocate returns is the implementation's choice, checked for admissibility.
 
 import (
 	"math/big"
@@ -19,6 +22,7 @@ func verifC02AddrNum(a netip.Addr) string {
 }
 
 func (a *PoolAllocator) verifC02Snap() string {
+	avail := a.Available()
 	a.mu.Lock()
 	defer a.mu.Unlock()
 	var ls []string
@@ -26,12 +30,7 @@ func (a *PoolAllocator) verifC02Snap() string {
 		ls = append(ls, verifC02AddrNum(addr)+"="+sid)
 	}
 	sort.Strings(ls)
-	var fs []string
-	for _, addr := range a.free {
-		fs = append(fs, verifC02AddrNum(addr))
-	}
-	sort.Strings(fs)
-	return "L[" + strings.Join(ls, ",") + "]F[" + strings.Join(fs, ",") + "]"
+	return "L[" + strings.Join(ls, ",") + "]F[" + strconv.Itoa(avail) + "]"
 }
 
 func (a *PrefixAllocator) verifC02Snap() string {
@@ -42,12 +41,8 @@ func (a *PrefixAllocator) verifC02Snap() string {
 		ls = append(ls, strconv.FormatUint(idx, 10)+"="+sid)
 	}
 	sort.Strings(ls)
-	var fs []string
-	for _, idx := range a.free {
-		fs = append(fs, strconv.FormatUint(idx, 10))
-	}
-	sort.Strings(fs)
-	return "L[" + strings.Join(ls, ",") + "]F[" + strings.Join(fs, ",") + "]"
+	// the prefix allocator has no Available(): what it can still delegate is its size minus what is leased
+	return "L[" + strings.Join(ls, ",") + "]F[" + strconv.FormatUint(a.count-uint64(len(a.leases)), 10) + "]"
 }
 
 // VerifC02Snapshot: "4:<key>:L[..]F[..] 6:<key>:... D:<key>:..." sorted by (family, key).
